@@ -1,8 +1,14 @@
 #!/bin/bash
-# Runs every registered quick (or $1=thorough) check against /repo and prints one line per property.
+# usage: bin/run_all.sh [quick|thorough] [ID ...]
+# Runs the registered quick (or thorough) check of every property (or of the given ones) against /repo and prints
+# one line per property.
 TIER=${1:-quick}
-cd /verif
-for id in $(python3 -c "import json;print(' '.join(c['property_id'] for c in json.load(open('MANIFEST.json'))['checks']))"); do
+shift
+cd /verif 2>/dev/null || cd "$(dirname "$0")/.."
+mkdir -p work
+IDS="$@"
+[ -z "$IDS" ] && IDS=$(python3 -c "import json;print(' '.join(c['property_id'] for c in json.load(open('MANIFEST.json'))['checks']))")
+for id in $IDS; do
   S=$(date +%s)
   bin/check $id --tier $TIER > work/runall-$id.log 2>&1
   RC=$?
